@@ -44,6 +44,8 @@ func c05ReadCar(file []byte) ([]cid.Cid, []Blk) {
 	return br.Roots, blks
 }
 
+func c05CodecUnknown(codec uint64) bool { return codec != 0 && codec != 0x0400 && codec != 0x0401 }
+
 func c05GenOpts(r *RNG) wOpts {
 	o := genWOpts(r)
 	o.v1 = r.Chance(15)
@@ -277,6 +279,40 @@ func init() {
 				in := VL{VN(w.kind), o.val(), VN(w.n), VN(w.code)}
 				c.Emit("finalwide", in, c05RunWideImpl(c, w.kind, o, w.n, w.code), true)
 				c.Count("wide-cid")
+			}
+		}
+
+		// ---- 1d. resumed sessions: interrupted before Finalize, the file possibly followed by a zero tail (null
+		// padding, zero-filled crash tail), reopened -- with ZeroLengthSectionAsEOF when there is a tail -- more puts,
+		// Finalize.  The finished file must carry the blocks of both sessions at the right offsets.
+		nRes := 40 * c.Scale
+		for i := 0; i < nRes; i++ {
+			r := c.R.Fork()
+			kind := uint64(pick(r, []int{0, 0, 1}))
+			o1 := c05GenOpts(r)
+			if c05CodecUnknown(o1.codec) {
+				o1.codec = 0x0401
+			}
+			if o1.maxCid != 0 && o1.maxCid < 128 {
+				o1.maxCid = 2048 // the first block put after the reopen must be accepted: it overwrites the zero tail
+			}
+			alpha := genBlocks(r, 3+r.Intn(5), genOpts{identity: true, maxData: 80})
+			roots := c05GenRoots(r, alpha)
+			h1 := c05GenHistory(r, kind, alpha, pick(r, []int{0, 1, 2, 4, 7}))
+			tail := uint64(pick(r, []int{0, 1, 1, 2, 3, 4}))
+			o2 := o1
+			o2.zeof = tail > 0 && !r.Chance(12) // a zero tail without the option: the reopen is refused
+			if tail == 0 {
+				o2.zeof = r.Bool()
+			}
+			// the first block put after the reopen is new, so the zero tail is overwritten
+			fresh := genBlock(r, genOpts{maxData: 40})
+			h2 := append([][]Blk{{fresh}}, c05GenHistory(r, kind, append(alpha, fresh), r.Intn(5))...)
+			in := c05ResumeInput(kind, o1, roots, h1, tail, o2, h2)
+			c.Emit("finalresume", in, c05RunResumeImpl(c, kind, o1, roots, h1, tail, o2, h2), true)
+			c.Count(fmt.Sprintf("resume:tail=%d/zeof=%v", tail, o2.zeof))
+			if o1.v1 {
+				c.Count("resume:v1")
 			}
 		}
 
